@@ -327,7 +327,7 @@ class Runner:
 
 
 # witness families whose only failures are open known findings of their own property: excluded from the mixed corpora of C06/C07
-OPEN_FINDING_FAMILIES = ('layout.to', 'reduce.none_of', 'expr.boolrhs', 'map.view')
+OPEN_FINDING_FAMILIES = ('layout.to', 'reduce.none_of', 'expr.boolrhs', 'map.view', 'qr.det.reflect')
 
 
 def in_open_finding_family(w):
